@@ -404,8 +404,17 @@ func genC02(r *Rand, tier, profile string) *Case {
 	nsub := r.Range(1, 3)
 	npub := r.Range(1, 3)
 	filters := []string{"t/#", "t/+", "t/x", "#", "+/x"}
+	slow := r.Bool(0.3)
 	for i := 0; i < nsub; i++ {
 		c.Steps = append(c.Steps, Step{K: "connect", At: int64(r.Range(1, 20)), C: i, N: 0, S: fmt.Sprintf("sub%d", i), U: "u", T: "p", I: 600})
+		if slow && r.Bool(0.6) {
+			// a subscriber that lets acknowledgement deadlines pass now and then (still connected)
+			var plan []string
+			for k := 0; k < 40; k++ {
+				plan = append(plan, r.Pick([]string{"ack", "ack", "ack", "silent1", "silent2"}))
+			}
+			c.Steps = append(c.Steps, Step{K: "ackplan", At: 1, C: i, L: plan})
+		}
 		c.Steps = append(c.Steps, Step{K: "sub", At: int64(r.Range(1, 20)), C: i, L: []string{r.Pick(filters)}, QL: []int{r.Intn(3)}, I: int64(1 + i)})
 	}
 	for i := 0; i < npub; i++ {
@@ -442,7 +451,11 @@ func genC02(r *Rand, tier, profile string) *Case {
 		}
 		c.Steps = append(c.Steps, Step{K: "pub", At: gap, C: p, T: "t/x", S: fmt.Sprintf("m%d", i+1), Q: 1 + r.Intn(2), I: int64(pids[p]), J: int64(pad)})
 	}
-	c.Steps = append(c.Steps, Step{K: "sleep", At: 10, I: 1500})
+	if slow {
+		c.Steps = append(c.Steps, Step{K: "sleep", At: 10, I: 16000})
+	} else {
+		c.Steps = append(c.Steps, Step{K: "sleep", At: 10, I: 1500})
+	}
 	return c
 }
 
@@ -611,7 +624,11 @@ func genC07(r *Rand, tier, profile string) *Case {
 			t += int64(r.Range(1, 700))
 			cl := r.Intn(nc)
 			f := r.Pick(filters)
-			ts = append(ts, tstep{t, Step{K: "sub", C: cl, L: []string{f}, QL: []int{r.Intn(3)}, I: int64(pid)}})
+			fs, qs := []string{f}, []int{r.Intn(3)}
+			for r.Bool(0.3) && len(fs) < 3 {
+				fs, qs = append(fs, r.Pick(filters)), append(qs, r.Intn(3))
+			}
+			ts = append(ts, tstep{t, Step{K: "sub", C: cl, L: fs, QL: qs, I: int64(pid)}})
 			pid++
 			t += 1400
 		}
@@ -624,7 +641,11 @@ func genC07(r *Rand, tier, profile string) *Case {
 			if r.Bool(0.2) {
 				f = genFilter(r, false)
 			}
-			ts = append(ts, tstep{t, Step{K: "sub", C: cl, L: []string{f}, QL: []int{r.Intn(3)}, I: int64(pid)}})
+			fs, qs := []string{f}, []int{r.Intn(3)}
+			for r.Bool(0.3) && len(fs) < 3 {
+				fs, qs = append(fs, r.Pick(filters)), append(qs, r.Intn(3))
+			}
+			ts = append(ts, tstep{t, Step{K: "sub", C: cl, L: fs, QL: qs, I: int64(pid)}})
 			pid++
 			t += 1400
 		}
@@ -732,7 +753,7 @@ func judgeRetained(w *world) {
 		}
 		from, to := w.stepAt[si], w.stepAt[si]+1300
 		windows[s.C] = append(windows[s.C], window{from, to})
-		f := s.L[0]
+		f := strings.Join(s.L, " , ")
 		// LWW fold of what this node knew when the SUBSCRIBE was processed
 		best := map[string]kEntry{}
 		skip := false
@@ -745,22 +766,24 @@ func judgeRetained(w *world) {
 			}
 		}
 		want := map[string]int{}
-		for key, e := range best {
-			topic := strings.TrimPrefix(key, "R|"+cl.mount+"/")
-			if topic == key || !refMatch(f, topic) {
-				continue // another mount point, or no match
+		for _, one := range s.L { // the replay is per filter of the SUBSCRIBE packet
+			for key, e := range best {
+				topic := strings.TrimPrefix(key, "R|"+cl.mount+"/")
+				if topic == key || !refMatch(one, topic) {
+					continue // another mount point, or no match
+				}
+				if unaligned[key] {
+					skip = true
+				}
+				if e.Live {
+					want[topic+"="+tagOf([]byte(e.Val))]++
+				}
 			}
-			if unaligned[key] {
-				skip = true
-			}
-			if e.Live {
-				want[topic+"="+tagOf([]byte(e.Val))]++
-			}
-		}
-		for key := range unaligned {
-			topic := strings.TrimPrefix(key, "R|"+cl.mount+"/")
-			if topic != key && refMatch(f, topic) {
-				skip = true
+			for key := range unaligned {
+				topic := strings.TrimPrefix(key, "R|"+cl.mount+"/")
+				if topic != key && refMatch(one, topic) {
+					skip = true
+				}
 			}
 		}
 		if skip {
@@ -892,7 +915,7 @@ func genC14(r *Rand, tier, profile string) *Case {
 		anyBH := false
 		for bi, n := range remotes {
 			if mask&(1<<uint(bi)) != 0 {
-				mode := r.Pick([]string{"fail", "fail", "blackhole", "partition"})
+				mode := r.Pick([]string{"fail", "fail", "blackhole", "partition", "disabled"})
 				if mode == "partition" {
 					ts = append(ts, tstep{t, Step{K: "partition", N: pubNode, I: int64(n)}})
 					anyBH = true
@@ -958,6 +981,7 @@ func judgeXnode(w *world) {
 				unreachable[rp.Dst] = rp.Outcome
 			}
 		}
+
 		// calls still in flight when the run ended did not reach their destination either
 		for _, st := range w.rpcStarted {
 			if st.Tag == p.tag && st.Src == pubNode {
@@ -1050,7 +1074,7 @@ func init() {
 	register(&Check{ID: "C07", Level: "exploration", Build: "maporder", Gen: genC07, Run: runC07, QuickS: 30, ThoroughS: 480,
 		Rule:   "a case = 1-3 nodes, 2-4 clients, rounds of retained publishes (non-empty / empty payload) and plain publishes over topics with shared prefixes, a settle, then subscriptions with exact and wildcard filters on any node, each followed by a 1.3 s observation window; the replayed set is compared with a reference map; non-trivial when >=1 subscribe judged with a non-empty reference; distinct by hash of the scenario",
 		Real:   e1Real, Stub: e1Stub,
-		Assume: []string{"one filter per SUBSCRIBE so 'once per matching topic' is unambiguous", "retained writes to one topic are ordered by simulated time (the CRDT clock is one strictly increasing stamp); concurrent cross-node writes are not generated"}})
+		Assume: []string{"a SUBSCRIBE with several filters replays once per (filter, matching topic)", "retained writes to one topic are ordered by simulated time (the CRDT clock is one strictly increasing stamp); concurrent cross-node writes are not generated"}})
 	register(&Check{ID: "C14", Level: "fault_enumeration", Build: "maporder", Gen: genC14, Run: runC14, QuickS: 30, ThoroughS: 480,
 		Rule:   "a case = 2-3 nodes, a PRNG placement of 1-4 subscribers and one publisher, and for that placement every subset of remote nodes made unreachable in turn (fast failure, black hole or partition per node), 1-2 QoS 1 publishes per subset; appends per node, acknowledgement and copies per subscriber are judged against the publisher node's view; non-trivial when >=1 publish judged; distinct by hash of the scenario",
 		Real:   e1Real, Stub: e1Stub,
